@@ -17,6 +17,21 @@ PROP = {
                    "returns every buffer exactly once with its size; every history of value operations of the C14 model (construct, copy, move, swap, "
                    "assign, clear, mutate, wrapper operations over any managers) is accepted - each block returns to the manager class that allocated "
                    "it - and is balanced once every object is destroyed. "
+                   "Hash family (Momo.HTL, a ledger layer over the C01 / C11 hash-table model: every operation of HashSet.h emits its manager calls - bucket array "
+                   "of every generation, BucketParams, crew block, pool buffers - and the life-cycle events of its element objects - creator, Relocate by "
+                   "category, Replace / ReplaceRelocate, copies and their roll-back, destruction - in program order, under a fault record per operation: "
+                   "throwing hash / equality functor, refused bucket array / BucketParams / crew block, throwing creator / copy / assignment, pvRelocateItems "
+                   "interrupted after any number of items with any number of generations alive, copy construction failing after any number of items, "
+                   "arbitrary pool traffic): for EVERY bucket description, relocation category, hash function, history over two containers and a node handle "
+                   "(Insert / emplace / Add, Remove by key / predicate, Extract + re-insert, Reserve, Clear with and without shrink, copy assignment, move, "
+                   "Swap, MergeTo) and every fault schedule the verified monitor accepts the whole event list and at every moment holds exactly the blocks "
+                   "and element objects on the containers' books (C03_hash_history_ledger, no SpecOK needed); after destruction the verdict is accepted-and-"
+                   "clean (C03_hash_history_balanced); Clear(true) leaves the container nothing but its crew block (C03_hash_clear_shrink); with SpecOK the "
+                   "books are the table - C01's invariant holds, one element object per stored item (same keys), one bucket array of pvGetBufferSize(logCount) "
+                   "bytes per generation, BucketParams iff a table exists, live objects = count (C03_hash_books_are_table). Tied to the code by c03_htledger: "
+                   "after every operation the model predicts number and bytes of the manager's outstanding blocks (bucket arrays, BucketParams, crews - each "
+                   "looked up by address in the manager's ledger with the size the container must have requested), pool buffers, live element objects, and "
+                   "the constructor / destructor runs of the operation. "
                    "Run time: every Allocate / Deallocate / Reallocate call and every constructor / destructor / assignment / functor use of "
                    "instrumented elements during random histories (with injected allocation failures, throwing copies, throwing hash / equality / "
                    "ordering functors, clear-with-shrink, copies, moves, swaps, merges between equal and unequal managers, destruction) of Array, "
@@ -25,9 +40,9 @@ PROP = {
                    "history both report zero outstanding blocks and zero live elements."),
     "level_note": ("PARTIAL. C03_full quantifies over the C++ containers and is not a theorem: for the real code the verified monitor judges the "
                    "histories that the generators reach (see counters), it does not cover all histories. Proved for all histories / fault schedules "
-                   "only for the traces of the models Obj (RelocateCreate, CopyExec: element events), Pool (blockCount > 1 state machine: buffer "
+                   "only for the traces of the models HTL (hash containers: complete manager and element events of every history; pool buffers of the chained bucket kinds are abstract - which buffers a pool holds is decided by MemPool (C09) and taken from the observed traffic, the model fixes only that Clear / destruction / a failed copy give all of them back; the relocation of a bucket's items into a larger pool block is not booked), Obj (RelocateCreate, CopyExec: element events), Pool (blockCount > 1 state machine: buffer "
                    "events, under the hypothesis FreshMallocs = the manager never answers with an outstanding address) and Val (block events of value "
-                   "operations; its element events carry values, not identities, and are not translated); Arr / ArrSeg / HashTable / BTree / MMap / "
+                   "operations; its element events carry values, not identities, and are not translated); Arr / ArrSeg / BTree / MMap / "
                    "Table models emit no identity-carrying traces and are covered only by the monitor at run time. Memory safety proper (no read or write outside live blocks by the container code) is NOT proved: it is run-time evidence "
                    "(ASan + UBSan on every harness, freed blocks kept poisoned until the end of the history); the ledger sees only the addresses of "
                    "element objects at construction / destruction (touch events). Trusted: Lean kernel + standard axioms, the recorder in "
@@ -54,6 +69,10 @@ PROP = {
         "Momo.Ledger.C03_pool_ledger_is_monitor",
         "Momo.Ledger.C03_val_history_accepted",
         "Momo.Ledger.C03_val_history_all_destroyed",
+        "Momo.HTL.C03_hash_history_ledger",
+        "Momo.HTL.C03_hash_history_balanced",
+        "Momo.HTL.C03_hash_clear_shrink",
+        "Momo.HTL.C03_hash_books_are_table",
     ],
     "harnesses": [
         {"name": "c03_array", "src": "c03_array.cpp", "sanitize": "asan", "flags": ["-DC03_PART=0"], "timeout_quick": 600},
@@ -70,6 +89,9 @@ PROP = {
         {"name": "c03_mempool", "src": "c03_misc.cpp", "sanitize": "asan", "flags": ["-DC03_PART=1"], "timeout_quick": 600},
         {"name": "c03_datatable", "src": "c03_misc.cpp", "sanitize": "asan", "flags": ["-DC03_PART=2"], "timeout_quick": 600},
         {"name": "c03_stdish", "src": "c03_misc.cpp", "sanitize": "asan", "flags": ["-DC03_PART=3"], "timeout_quick": 600},
+        {"name": "c03_htledger_open", "src": "c03_htledger.cpp", "sanitize": "asan", "flags": ["-DVF_PART=0"], "timeout_quick": 600},
+        {"name": "c03_htledger_open2", "src": "c03_htledger.cpp", "sanitize": "asan", "flags": ["-DVF_PART=1"], "timeout_quick": 600},
+        {"name": "c03_htledger_chain", "src": "c03_htledger.cpp", "sanitize": "asan", "flags": ["-DVF_PART=2"], "timeout_quick": 600},
     ],
     "rule": ("14 executables (array x3, hash x4, tree x3, multimap, mempool, datatable, stdish), 45 container configurations. Each history: two "
              "containers of one type (stdish: eight) over stateful managers of equal or unequal identity classes (chosen per history), 55-120 random "
@@ -82,10 +104,19 @@ PROP = {
              "probed in a forked child and then run in-process (finding F28). Every manager call / element construction, destruction, copy source, "
              "assignment and functor argument / address of constructed and destroyed elements inside manager blocks is one op line for the Lean "
              "monitor. evaluations = histories (quick 1440, thorough 21000 over two seeds); distinct_nontrivial = distinct (family, operation, "
-             "exception kind, k) that exited with an exception."),
+             "exception kind, k) that exited with an exception. "
+             "c03_htledger (model level, engine htledger; 3 executables, 19 instantiations of HashSet / HashMap: Open2N2<1..3>, OpenN1<3,7>, Open8, One - no "
+             "pools - and LimP4<2..4>, LimP<3>, LimP1<3>, UnlimP - pools - over trivially relocatable, nothrow-move, copy-only and copy-only-with-throwing-"
+             "assignment keys, fast and slow hash): 8 runs x 220 operations quick (24 x 900 thorough) per instantiation on two containers and a node handle - "
+             "insert (1/3 under a fault: bucket array / BucketParams / pool buffer refused, copy throws, hash or equality functor throws; migrations kept "
+             "failing so that 2-3 generations pile up), find, remove (throwing assignment, throwing equality), remove-if (assignment throwing at the n-th removal), "
+             "reserve, clear with and without shrink, extract / re-insert / drop, copy assignment with a fault at every stage (crew, array, params, n-th item), "
+             "move, swap, merge, and the monitor's own verdict over the whole event list. distinct_nontrivial there = distinct (bucket kind, operation, "
+             "exception, fault tokens) that exited with an exception, plus the histories."),
     "runtime_only": ["ASan/UBSan on every history; blocks given back are kept poisoned until the end of the history, so a later access aborts",
                      "absence of out-of-bounds accesses inside live blocks",
                      "that the recorder sees every event (elements are instrumented types; plain integers have block events only)"],
-    "not_modelled": ["container-level models (Arr, ArrSeg, HashTable, BTree, MMap, Table) emit no ledger traces: no theorem that THEIR histories are balanced",
+    "not_modelled": ["container-level models Arr, ArrSeg, BTree, MMap, Table emit no ledger traces: no theorem that THEIR histories are balanced (the hash family has one: Momo.HTL)",
+                     "hash family (Momo.HTL): which buffers a memory pool holds (taken from the observed traffic; only 'Clear / destruction / failed copy return all' is the model's own), the relocation of a chained bucket's items into a larger pool block (element objects of the chained kinds are tracked per item; constructor / destructor counts are compared for the open-addressing kinds and One only), the heap arrays of UnlimP buckets beyond their fast storage (booked as pool traffic), Insert(range), ResetKey, the initializer-list constructors, HashMultiMap; AssignAnyway is booked as a use of both objects whatever technique (move assignment, swap, rotation) the item type selects; C03_hash_books_are_table carries the copy-fits side condition of C01's history theorem",
                      "libstdc++ internals behind stdish::pool_allocator (C20)"],
 }
